@@ -187,16 +187,45 @@ theorem clsInv_setAttributes (T : Tables) : ∀ (l : List (Str × Option Str)) {
     · next e' heq => rw [heq] at h1; exact clsInv_setAttributes T r h1
     · next o e' _ heq => rw [heq] at h1; exact h1
 
+/-- a reader either leaves the state alone or runs `_handleClassAttr` -/
+theorem mapGet_snd (T : Tables) (k : Str) (d : PyVal) (e : El) :
+    (mapGet T k d e).2 = e ∨ (mapGet T k d e).2 = handleClassAttr e := by
+  unfold mapGet
+  simp only
+  split
+  · exact Or.inl rfl
+  · split
+    · exact Or.inl rfl
+    · right
+      split <;> rfl
+
+theorem getAttribute_snd (T : Tables) (k : Str) (d : PyVal) (e : El) :
+    (getAttribute T k d e).2 = e ∨ (getAttribute T k d e).2 = handleClassAttr e := by
+  unfold getAttribute
+  split
+  · split
+    · exact Or.inl rfl
+    · exact Or.inl rfl
+  · exact mapGet_snd T k d e
+
+theorem getAttribute_cls (T : Tables) (k : Str) (d : PyVal) (e : El) : (getAttribute T k d e).2.cls = e.cls := by
+  rcases getAttribute_snd T k d e with h | h <;> rw [h]
+  rfl
+
 theorem clsInv_dotSet (T : Tables) (n : Str) (v : DotVal) {e : El} (h : ClsInv e) : ClsInv (dotSet T n v e).2 := by
   unfold dotSet
   split
   · exact clsInv_setClassName _ e
   · split
     · exact h
-    · split
+    · next L _ =>
+      split
       · exact h
       · split
-        · exact clsInv_setAttribute _ _ _ h
+        · have h1 := clsInv_setAttribute T L.attr (some v.boolString) h
+          split
+          · next e' heq => rw [heq] at h1; exact clsInv_of_eq (getAttribute_cls _ _ _ _) h1
+          · next r hne => exact h1
         · split
           · split
             · exact clsInv_setAttribute _ _ _ h
